@@ -18,6 +18,30 @@ CLAIMED = {
          "As C05; bitmaps wider than 97 pixels or taller than the listed shapes are not explored.", "3 C05/C06/C07"),
 }
 
+CLAIMED.update({
+ "C01": ("exploration", "E1", "bounded-exhaustive enumeration of pixel-value tuples (full 2^24..2^32 cubes / boundary alphabets) through pixman_image_composite32, compared with an independent model of the Render/PDF equations",
+         "Every tuple of (source colour, source alpha, mask, destination colour, destination alpha) from the stated alphabets is a pixel of a strip composited by the real library under the default chain and the general-only chain. The 13 Porter-Duff operators and ADD (no mask, unified, component alpha, a8 mask) are compared bit-exactly with 'round each product to nearest 1/255, saturate sums'; the 40 other operators with a long-double transcription of the Render disjoint/conjoint and PDF blend equations within one destination step (integer-evaluated separable blend modes: 2 steps unmasked, 3 masked; blend modes judged on valid premultiplied inputs only). Format triples (17 formats in each role, incl. 565, 4444, 2-bit, 10-bit, float) check widening by bit replication, truncating narrowing and the float pipeline.",
+         "Trusts ref/ref_combine.h as a transcription of the specifications; HSL with component alpha is executed but not judged; values outside the alphabets in the quick tier; x86-64 back ends only.", "3 C01"),
+ "C02": ("exploration", "E1", "differential bounded-exhaustive enumeration: every request under every PIXMAN_DISABLE configuration, byte-compared with the general path; dispatch coverage measured through link-time wrappers",
+         "Each (operator, source kind, mask kind, destination format) combination - and, for those the library's own tables route to a fast path, the full loop-geometry alphabet (every width 1..19/31..33/63..65/127..130 x destination alignment 0..7 x source offsets x strides x a two-rectangle clip) - plus transformed sources (12 transforms x 4 filters x 4 repeats) and blt/fill is executed under 12 (quick) or all 32 (thorough) configurations of {fast, mmx, sse2, ssse3, wholeops}; the entire destination buffer must equal the portable general path (undefined x-channel bits excluded). Wrappers around lookup_composite / iter_init / lookup_combiner record which table entry handled each request: 569 of 574 fast-path and iterator table entries are reached (the other five are unreachable by construction), and a cache-vs-table cross-check runs on every lookup.",
+         "x86-64 back ends only; images up to 160x4; two pixel patterns; the general path itself is C01's subject.", "3 C02"),
+ "C03": ("exploration", "E1", "bounded-exhaustive enumeration of request rectangles x clips x source-clip options x alpha maps x formats against a boolean-grid model of the intersection, every destination bit checked",
+         "For two destination sizes, six formats (32/16/24/8/4/1 bpp) with padded strides and guard words, six destination clips, four alpha-map placements, 7-15 source options and 8-16 mask options (clip shape x clip_sources x client_clip x offset), all 840 request rectangles (negative, overhanging, zero and 2^30 extents) are composited twice with complementary fill/source so that every covered pixel flips all its bits; every bit of the buffer, padding, guard words and the alpha-map buffer is compared with the model region, and pixman_compute_composite_region's rectangle list and boolean with the model. fill_boxes/fill_rectangles, glyph and trapezoid entry points are checked for writes outside bounds and clip.",
+         "Clip regions on alpha-map images are outside the alphabet (not named by the statement); coordinates within int32 arithmetic.", "3 C03"),
+ "C13": ("exploration", "E1", "bounded-exhaustive enumeration of stop lists x geometries x repeats x transforms through both pipelines, compared with a long-double reference within one 8-bit step; ASan for the safety half",
+         "Every combination of 1-4-stop lists (non-decreasing positions from {0,1/4,1/2,1/2,3/4,1}, four colours incl. translucent) x linear/radial/conical geometries incl. degenerate ones x 4 repeat modes x up to 8 affine/projective transforms x 2 origins is drawn with OP_SRC into a8r8g8b8 and rgba_float under AddressSanitizer and each pixel compared with an independent reference (geometric t, repeat folding, stop search, non-premultiplied interpolation, premultiply) within one 8-bit step, set-valued only within 2^-15 of a discontinuity. Safety spaces feed unsorted/out-of-range stops, coincident points, zero/identical circles and singular or overflowing transforms and demand no crash, hang or ASan report. Far-origin spaces repeat the colour claim thousands of periods from the origin.",
+         "Two gradient-walker defects far from the origin are recorded as known findings; masks, other operators, >4 stops, non-dyadic transforms are not covered.", "3 C13"),
+ "C15": ("fault_enumeration", "E3", "deviation-bounded exhaustive fault enumeration: link-time wrapped allocator fails the k-th call / all calls from k / all pairs, for every allocation call of 78-81 API scenarios",
+         "The real library (clang ASan) is linked with --wrap on malloc/calloc/realloc/free. For 78 scenarios (81 thorough: constructors, setters, region operations sized to hit each pixman_rect_alloc branch, composites needing heap scanline buffers, alpha maps, fills, trapezoids, glyphs, filter creation) the allocation calls made inside the API calls are numbered, then every schedule 'only call k fails', 'everything from k on fails', all pairs (thorough: single+persistent, triples) is executed. Each case checks: no crash/ASan report, live blocks back to the starting count, constructors NULL / booleans FALSE or the fault-free result, failed regions are the broken region that propagates and accepts clear/fini/re-init, each destination pixel is old or fault-free, objects remain usable. Evidence lists the 50 allocation sites reached and the 3 never reached.",
+         "Five genuine defects are recorded as known findings (narrow classifiers); allocation inside the library constructor before main is not reachable.", "3 C15"),
+ "C17": ("model_checking", "E2", "explicit-state breadth-first search to a fixpoint over canonical glyph-cache states on the real code (white-box), map+LRU+freeze reference model on every transition; exhaustive differential enumeration for glyph drawing",
+         "pixman-glyph.c is compiled into the harness twice under the PIXMAN_VERIF size hook (4 slots/5 keys, 8 slots/6 keys chosen from the real hash() to collide and wrap). BFS to a fixpoint (small: 9,702 states; medium: 986,988 states / 18.7 M transitions in thorough, depth-capped in quick) over canonical states (slot contents, MRU order, freeze count); each transition is rebuilt by replay and compared with a map + LRU list + freeze-count model: lookups, immutable entry content, refusal when full, LRU-first eviction only above the high-water mark, counter/slot/MRU consistency; every call runs under a watchdog. The drawing half compares composite_glyphs_no_mask with per-glyph composite32 and composite_glyphs with a hand-accumulated ADD mask, bit-exact over 0-3 glyphs, formats, positions, clips, 6 operators.",
+         "Duplicate keys, insert while not frozen, tables larger than 8 slots are outside the alphabet.", "3 C17"),
+ "C20": ("model_checking", "E2", "explicit-state breadth-first search to a fixpoint over image-ownership states on the real code under ASan, ownership reference model on every transition",
+         "Pool of two bits images (one library-allocated), a gradient and a glyph cache; alphabet ref/unref, set_alpha_map (incl. self and NULL), transform/filter/clip/destroy-function setters, glyph insert/remove, drawing. BFS to a fixpoint (45,900 states quick; 630,260 states / 24 M transitions thorough); every transition is replayed on a fresh pool and judged by an ownership model: unref return value, destroy callback exactly once, cascade to alpha maps, refusal of chains; finally all references are released and the heap level must return to baseline. AddressSanitizer catches use-after-free and double free.",
+         "At most 2 client references per image and 2 (4) non-default properties at a time; allocation failure is C15's subject.", "3 C20"),
+})
+
 NA_REASON = "check not built yet in this round (planned in DESIGN.md section 3); not claimed until its check exists and has run clean end-to-end"
 
 def main():
